@@ -42,10 +42,20 @@ Section Sites.
              if all_subtypes tys (dvalues sg) then Ok tt else Err EAssert
     end.
 
-  (* TrajectoryParser (constructed with a problem), parse_grounded_numeric_fluent: the argument types are collected
-     in a dict keyed by the object NAME (a repeated argument collapses) and zipped with the lifted signature;
-     facts are NOT type-checked (only arity and that the names exist) *)
+  (* TrajectoryParser (constructed with a problem), parse_grounded_numeric_fluent, after the repair D31 (3c74fae): arity,
+     every name known, then argument i against parameter i - as ProblemParser does since D19c *)
   Definition trajectory_fluent (f : string) (args : list string) : result unit :=
+    match dget (d_funcs dom) f with
+    | None => Err EAssert
+    | Some sg =>
+        if negb (Nat.eqb (List.length args) (List.length sg)) then Err EValue
+        else do tys <- mapM type_of_name args;
+             if all_subtypes tys (dvalues sg) then Ok tt else Err EAssert
+    end.
+
+  (* the same function BEFORE that repair, kept for the refutation theorem: the argument types were collected in a dict
+     keyed by the object NAME (a repeated argument collapses) and zipped with the lifted signature *)
+  Definition trajectory_fluent_before_D31 (f : string) (args : list string) : result unit :=
     match dget (d_funcs dom) f with
     | None => Err EAssert
     | Some sg =>
@@ -55,17 +65,7 @@ Section Sites.
              if all_subtypes (dvalues by_name) (dvalues sg) then Ok tt else Err EAssert
     end.
 
-  (* the same function after the proposed repair D31 (proposed_fixes/D31.diff: argument i checked against parameter i,
-     as ProblemParser does since D19c) - NOT what /repo does until that repair is committed *)
-  Definition trajectory_fluent_positional (f : string) (args : list string) : result unit :=
-    match dget (d_funcs dom) f with
-    | None => Err EAssert
-    | Some sg =>
-        if negb (Nat.eqb (List.length args) (List.length sg)) then Err EValue
-        else do tys <- mapM type_of_name args;
-             if all_subtypes tys (dvalues sg) then Ok tt else Err EAssert
-    end.
-
+  (* TrajectoryParser.parse_grounded_predicate: facts are NOT type-checked (only arity and that the names exist) *)
   Definition trajectory_fact (p : string) (args : list string) : result unit :=
     match dget (d_preds dom) p with
     | None => Err EValue
